@@ -3,6 +3,12 @@ import json, os, sys
 V = os.path.dirname(os.path.dirname(os.path.abspath(__file__)))
 
 CLAIMED = {
+ 'C15': dict(
+   technique='contract-based deductive verification: AST symbolic executor (pyvc) over the real buffer_to_tensors / parse_op_tensors / _compatible_* / _check_buffer_sharing / instruction validity code with loop invariants; compatibility lemma over an uninterpreted parameter equality; exhaustive native tables for quantize_tensor idempotence',
+   level='proof',
+   text='buffer_to_tensors maps every buffer to exactly the operand uses on it (all subgraphs, with multiplicity); _compatible_tensor_params => same source class and, for quantized sources, equal parameters; _check_buffer_sharing returning normally => the pairwise conclusion for every listed buffer (pivot argument checked by the solver, for any number of sharers); a tensor cannot be both quantized and unquantized; quantize_tensor writes a function of the parameters only (applying it twice / for two sharers with equal parameters gives the same bytes).',
+   note='Known finding (class-excluded, witness replayed every run): a tensor on a data-bearing buffer that is not an operand of any operator is invisible to the check. Which consumer entry actually quantizes the buffer (generator/performer composition) and the one-step numeric bound (C05/C17) only through the bounded end-to-end stand-in; dataclass equality of parameters trusted to be an equivalence.',
+   design='§4 C15'),
  'C17': dict(
    technique='contract-based deductive verification: CPython-executed symbolic arrays over the real numpy code -> QF nonlinear real/integer VCs (z3, cvc5), IEEE binary32 VCs for finiteness; spec-level lemma chains',
    level='proof',
